@@ -295,7 +295,7 @@ def r15_4(ctx):
 def r15_5(ctx):
     from ..yieldpaths import canon_test, consistent
     from .common import segment_streams
-    ctx.rule("R15.5", "text export filter (decided on the segment-stream normal form: loops, comprehensions, tuple targets or attribute access are the same thing): export_text(styles=False) emits the text of exactly the non-control segments of the record, in order; styles=True emits every segment, its own style rendered around its own text")
+    ctx.rule("R15.5", "text export filter (decided on the segment-stream normal form: loops, comprehensions, tuple targets or attribute access are the same thing): export_text(styles=False) emits the text of exactly the non-control segments of the record, in order; styles=True emits the same segments, each with its own style rendered around its own text (control segments are skipped in both: they are not characters of the visible text)")
     f = ctx.repo.fn("console:Console.export_text")
     g = cfgmod.build(f.node)
     streams = segment_streams(f, lambda it: norm(it) == "self._record_buffer")
@@ -333,8 +333,15 @@ def r15_5(ctx):
               "export_text(styles=False) is not the concatenation of segment.text over exactly the non-control segments of the record" + (f" ({why})" if why else ""))
     ok = True
     why = ""
-    for scen, want in (({"styles": True, "STYLE": True}, "STYLE.render(TEXT)"), ({"styles": True, "STYLE": False}, "TEXT")):
+    for scen, want in (({"styles": True, "STYLE": True, "CTRL": False}, "STYLE.render(TEXT)"), ({"styles": True, "STYLE": False, "CTRL": False}, "TEXT"), ({"styles": True, "CTRL": True}, None)):
         got = sel(scen)
+        if want is None:
+            # control segments (bell, clear, cursor visibility) are not part of the visible text: the styled export must skip
+            # them too, or it does not decode to the characters of the plain export
+            for p, e in got:
+                if e is not None:
+                    ok, why = False, f"a control segment is exported as `{e}`: after bell() the styled export contains \\x07, which decodes to a character the visible text does not have"
+            continue
         if not got:
             ok, why = False, f"no path for {scen}"
         for p, e in got:
